@@ -45,7 +45,8 @@ Definition is_taut (t : triv) : bool := match t with Taut => true | _ => false e
 Definition is_incons (t : triv) : bool := match t with Incons => true | _ => false end.
 (* strict inequalities seen by Constraint_System::const_iterator (which skips tautologies) that are not inconsistent *)
 Definition nontrivial_strict (c : cshape) : bool := c_strict c && negb (is_taut (c_triv c)) && negb (is_incons (c_triv c)).
-Definition has_strict (cs : csshape) : bool := existsb c_strict (cs_rows cs).
+(* Constraint_System::has_strict_inequalities(): tautological strict inequalities do not count *)
+Definition has_strict (cs : csshape) : bool := existsb (fun c => c_strict c && negb (is_taut (c_triv c))) (cs_rows cs).
 
 (* space dimension of a Variable with index v, of a Variables_Set *)
 Definition var_dim (v : N) : N := v + 1.
@@ -152,7 +153,7 @@ Definition rungs (r : recv) (c : call) : ladder :=
   | Constrains v => [ (dim_gt (var_dim v) n, ia) ]
   | Bounds e | Max_min e | Frequency e => [ (dim_gt e n, ia) ]
   | Ctor_dim m => [ (dim_gt m max_dim, Length_error) ]
-  | Ctor_cons t cs => [ (dim_gt (cs_dim cs) max_dim, Length_error); (topo_eqb t TC && existsb c_strict (cs_rows cs), ia) ]
+  | Ctor_cons t cs => [ (dim_gt (cs_dim cs) max_dim, Length_error); (topo_eqb t TC && has_strict cs, ia) ]
   | Ctor_gens t gs =>
       match gs_rows gs with
       | [] => [ (dim_gt (gs_dim gs) max_dim, Length_error) ]
@@ -223,7 +224,7 @@ Definition doc_pre (r : recv) (c : call) : Prop :=
   | Constrains v => v < n
   | Bounds e | Max_min e | Frequency e => e <= n
   | Ctor_dim m => m <= max_dim
-  | Ctor_cons t cs => cs_dim cs <= max_dim /\ (t = TC -> forall k, In k (cs_rows cs) -> c_strict k = false)
+  | Ctor_cons t cs => cs_dim cs <= max_dim /\ (t = TC -> has_strict cs = false)
   | Ctor_gens t gs => gs_dim gs <= max_dim /\ (gs_rows gs <> [] -> has_points gs = true /\ (t = TC -> has_closure_points gs = false))
   end.
 
@@ -516,13 +517,9 @@ Proof. intros r. unfold check, rungs, doc_pre. cbn [first_fail]. destruct (dim_g
 
 Theorem pc_ctor_cons t cs : complete_for (Ctor_cons t cs).
 Proof.
-  intros r. unfold check, rungs, doc_pre. cbn [first_fail].
-  destruct (dim_gt (cs_dim cs) max_dim) eqn:E1; norm_hyps; [split; [discriminate|intros [H _]; lia]|].
-  destruct (topo_eqb t TC) eqn:E2; norm_hyps; cbn [andb].
-  - destruct (existsb c_strict (cs_rows cs)) eqn:E3; split; intros H; try discriminate; try reflexivity.
-    + destruct H as [_ H]. specialize (H E2). apply existsb_false_forall in H. congruence.
-    + split; [exact E1|]. intros _. now apply existsb_false_forall.
-  - split; [|reflexivity]. intros _. split; [exact E1|intros X; congruence].
+  intros r. unfold check, rungs, doc_pre.
+  pose proof (topo_eqb_eq t TC) as T. pose proof (dim_gt_false (cs_dim cs) max_dim) as D.
+  destruct (dim_gt (cs_dim cs) max_dim), (topo_eqb t TC), (has_strict cs); brute.
 Qed.
 
 Theorem pc_ctor_gens t gs : complete_for (Ctor_gens t gs).
